@@ -49,6 +49,11 @@ type segCase struct {
 	// answered it (the case is excluded if it does not), the requests that follow are handled as on a fresh connection: nothing of
 	// the rejected input - bytes or state - may affect them, however they are fragmented.
 	Garbage spec.Hex `json:"garbage,omitempty"`
+	// Runt: a frame of 6..8 bytes with a valid protocol id whose length field (0..2) says where it ends, but which is too short to be a
+	// request, directly in front of the first request IN THE SAME STREAM (an early-sending client does not wait for its rejection). The
+	// server answers it with one exception frame (9 bytes, contents not judged here) - as soon as it has the 8 bytes it classifies by -
+	// and serves the requests after it as if it had not been there, however the joined stream is fragmented.
+	Runt spec.Hex `json:"runt,omitempty"`
 }
 
 // errorUnit: requests with a unit id at or above this are answered by the handler with a typed error
@@ -63,12 +68,29 @@ type plan struct {
 	replies  [][]byte // reference replies
 	refTotal []int    // cumulative reply length after request i
 	segments [][]byte
+	wild     int // the first wild reply bytes (the answer to the runt) are not compared
+}
+
+func (p plan) same(got, want []byte) bool {
+	if len(got) != len(want) {
+		return false
+	}
+	w := min(p.wild, len(got))
+	return bytes.Equal(got[w:], want[w:])
 }
 
 func mkPlan(c segCase) plan {
 	var p plan
 	dev := device.New(c.DevSeed)
 	total := 0
+	if len(c.Runt) > 0 {
+		// classified (and answered) once 8 bytes are there, consumed up to its own end
+		p.stream = append(p.stream, c.Runt...)
+		p.ends = append(p.ends, 8)
+		p.replies = append(p.replies, make([]byte, 9))
+		p.wild, total = 9, 9
+		p.refTotal = append(p.refTotal, total)
+	}
 	for _, r := range c.Requests {
 		f := spec.EncodeRequest(spec.TCP, r)
 		p.stream = append(p.stream, f...)
@@ -170,6 +192,9 @@ func runSeg(c segCase) harness.Result {
 	if err != nil {
 		return harness.Result{Err: err, NonTrivial: true}
 	}
+	if len(c.Runt) > 0 {
+		labels = append(labels, "runt-frame-in-front")
+	}
 	if len(c.Garbage) > 0 {
 		labels = append(labels, "after-rejected-garbage")
 	}
@@ -213,14 +238,14 @@ func runAssembler(c segCase, p plan, ref []byte) (err error) {
 		if closeConn {
 			return fmt.Errorf("assembler asked to close the connection after segment %d of valid requests", i)
 		}
-		if len(out) > len(ref) || !bytes.Equal(out, ref[:len(out)]) {
+		if len(out) > len(ref) || !p.same(out, ref[:len(out)]) {
 			return fmt.Errorf("after segment %d (%d stream bytes fed) the server has sent\n  %x\nwhich is not a prefix of the reference reply stream\n  %x\nsegments: %s", i, fed, out, ref, describe(p))
 		}
 		if a := p.allowed(fed); len(out) > a {
 			return fmt.Errorf("after segment %d (%d stream bytes fed) %d reply bytes were sent, but only requests worth %d reply bytes are complete: something was sent before its request was complete (segments: %s)", i, fed, len(out), a, describe(p))
 		}
 	}
-	if !bytes.Equal(out, ref) {
+	if !p.same(out, ref) {
 		return fmt.Errorf("after the whole stream the server has sent\n  %x\nreference (each request answered once, in order)\n  %x\nsegments: %s", out, ref, describe(p))
 	}
 	return nil
@@ -346,7 +371,7 @@ func runServer(c segCase, p plan, ref []byte) error {
 	for i, seg := range p.segments {
 		// everything received up to now was caused by the segments written so far
 		got := col.Bytes()
-		if len(got) > len(ref) || !bytes.Equal(got, ref[:len(got)]) {
+		if len(got) > len(ref) || !p.same(got, ref[:len(got)]) {
 			return fmt.Errorf("before segment %d (%d stream bytes fed) the server has sent\n  %x\nwhich is not a prefix of the reference reply stream\n  %x\nsegments: %s", i, fed, got, ref, describe(p))
 		}
 		if a := p.allowed(fed); len(got) > a {
@@ -376,7 +401,7 @@ func runServer(c segCase, p plan, ref []byte) error {
 		got = col.WaitLen(len(ref), 12*time.Second)
 	}
 	got = col.WaitQuiet(60*time.Millisecond, 2*time.Second)
-	if !bytes.Equal(got, ref) {
+	if !p.same(got, ref) {
 		return fmt.Errorf("after the whole stream the server has sent\n  %x\nreference (each request answered once, in order)\n  %x\nsegments: %s", got, ref, describe(p))
 	}
 	if closed, _ := col.Closed(); closed {
@@ -506,6 +531,17 @@ func genSeg(t *rapid.T, level string) segCase {
 		g[2+rapid.IntRange(0, 1).Draw(t, "garbage_pidx")] = byte(rapid.IntRange(1, 255).Draw(t, "garbage_pid"))
 		c.Garbage = g
 	}
+	if len(c.Garbage) == 0 && rapid.IntRange(0, 5).Draw(t, "with_runt") == 0 {
+		c.Runt = genRunt(t)
+		// the cuts keep their place in the requests; the seam between the runt and the first request is cut sometimes
+		for i := range c.Cuts {
+			c.Cuts[i] += len(c.Runt)
+		}
+		if at := rapid.IntRange(0, len(c.Runt)+3).Draw(t, "runt_cut"); at > 0 && rapid.Bool().Draw(t, "with_runt_cut") {
+			c.Cuts = append(c.Cuts, at)
+		}
+		L += len(c.Runt)
+	}
 	if level == "B" {
 		// the server reads at most 300 bytes per read: keep segments <= 300 so that one write is one read
 		pos := 0
@@ -515,6 +551,16 @@ func genSeg(t *rapid.T, level string) segCase {
 		}
 	}
 	return c
+}
+
+func genRunt(t *rapid.T) []byte {
+	n := rapid.IntRange(0, 2).Draw(t, "runt_len")
+	g := []byte{rapid.Byte().Draw(t, "runt_tx_hi"), rapid.Byte().Draw(t, "runt_tx_lo"), 0, 0, 0, byte(n)}
+	g = append(g, gen.Payload(t, "runt_body", n)...)
+	if n == 2 && g[7] == 17 {
+		g[7] = 3 // (unit + function 17 is the one complete request of that length)
+	}
+	return g
 }
 
 var chkA = harness.Define("assembler-segmentation", func(t *rapid.T) segCase { return genSeg(t, "A") }, runSeg)
@@ -617,6 +663,55 @@ func TestAllCutSets(t *testing.T) {
 		}
 	}
 	harness.Exhaustive("assembler-segmentation", "level A: all 2^(n-1) cut sets of every single small request (<= 16 B) and of request pairs (<= 20 B); all single and double cuts of the longer ones", n)
+}
+
+// TestRuntBeforeRequests: a 6, 7 or 8-byte frame with a valid protocol id and a length field of 0, 1 or 2 directly in front of one or
+// two requests (transaction ids with a non-zero high byte), under every single and double cut of the joined stream and as one read.
+func TestRuntBeforeRequests(t *testing.T) {
+	idx := 0
+	n := int64(0)
+	for _, runt := range [][]byte{{0x11, 0x11, 0, 0, 0, 0}, {0x11, 0x12, 0, 0, 0, 1, 9}, {0x11, 0x13, 0, 0, 0, 2, 9, 3}, {0x11, 0x14, 0, 0, 0, 2, 0, 0}, {0, 0, 0, 0, 0, 2, 0xFF, 0x90}} {
+		for _, fcs := range [][]uint8{{3}, {17}, {4, 17}, {17, 16}, {6, 1}} {
+			var reqs []spec.Req
+			for i, fc := range fcs {
+				r := small(fc, i)
+				r.Tx = uint16(0x2222 + 0x1111*i)
+				reqs = append(reqs, r)
+			}
+			L := len(runt) + len(mkPlan(segCase{Requests: reqs, DevSeed: 5}).stream)
+			sets := [][]int{nil}
+			for a := 1; a < L; a++ {
+				sets = append(sets, []int{a})
+				for b := a + 1; b < L && b < a+12; b++ {
+					sets = append(sets, []int{a, b})
+				}
+			}
+			for _, cs := range sets {
+				idx++
+				if !harness.Mine(idx) {
+					continue
+				}
+				n++
+				if !chkA.EvalFast(t, segCase{Requests: reqs, Cuts: cs, DevSeed: 5, Level: "A", Runt: runt}) {
+					return
+				}
+			}
+		}
+	}
+	for _, runt := range [][]byte{{0x11, 0x11, 0, 0, 0, 0}, {0x11, 0x13, 0, 0, 0, 2, 9, 3}} {
+		for _, cs := range [][]int{nil, {len(runt)}, {8}} {
+			idx++
+			if !harness.Mine(idx) {
+				continue
+			}
+			r := small(3, 0)
+			r.Tx = 0x2222
+			if !chkB.Eval(t, segCase{Requests: []spec.Req{r, small(17, 1)}, Cuts: cs, DevSeed: 5, Level: "B", Runt: runt}) {
+				return
+			}
+		}
+	}
+	harness.Exhaustive("assembler-segmentation", "level A: five runt frames (6..8 bytes, valid protocol id, length field 0..2) in front of five request streams, as one read and under every single cut and every double cut less than 12 bytes apart", n)
 }
 
 // ---------------------------------------------------------------------------
